@@ -46,3 +46,27 @@ OBLIGATIONS += [
      "what": "sodium_bin2hex for every bin_len <= 4096 and every capacity > 2*bin_len: two lower-case digits per byte, NUL terminator, returns hex, nothing beyond written",
      "bound": "values: bin_len <= 4096, hex_maxlen <= 8200 (object-size bound)"},
 ]
+
+OBLIGATIONS += [
+    {"name": "c15.u.hex2bin", "props": ["C15", "C12"], "kind": "U", "tier": "quick", "src": "harness/codecs_du.c", "include": ["contracts/codecs_u.h"], "entry": "hu_hex2bin",
+     "mode": "dfcc", "probe": False, "min_props": 30, "solver": "kissat", "timeout": 900, "cbmc": ["--unwind", "24", "--object-bits", "12"],
+     "dfcc": {"enforce": ["sodium_hex2bin/sodium_hex2bin_spec"], "replace": ["strchr"],
+              "loopspec": {"sodium_hex2bin": [{"id": 0, "dec": "hex_len - hex_pos",
+                  "assigns": "hex_pos,bin_pos,ret,c,c_acc,c_alpha0,c_alpha,c_num0,c_num,c_val,state,v_errno,__CPROVER_object_upto(bin,bin_maxlen)",
+                  "inv": "hex_pos <= hex_len && bin_pos <= bin_maxlen && (state == 0 || state == 255) && (state != 0 ==> hex_pos >= 1) && (ret == 0 || ret == -1)"}]}},
+     "functions": ["sodium_hex2bin"], "assumes": ["strchr replaced by its libc contract (no side effect, result NULL or inside its argument)", "errno modelled as a plain global"],
+     "what": "sodium_hex2bin for EVERY input text (<= 8192 bytes, any content), capacity (<= 4096) and ignore set: memory safety, writes confined to bin[0..bin_maxlen) / *bin_len / *hex_end / errno, *bin_len <= capacity, 0 on failure, end pointer inside [hex, hex+len]",
+     "bound": "values: text <= 8192 bytes, capacity <= 4096 (object-size bounds); every loop iteration covered by the invariant"},
+    {"name": "c15.u.base642bin", "props": ["C15", "C12"], "kind": "U", "tier": "quick", "src": "harness/codecs_du.c", "include": ["contracts/codecs_u.h"], "entry": "hu_base642bin",
+     "mode": "dfcc", "probe": False, "min_props": 30, "solver": "kissat", "timeout": 900, "cbmc": ["--unwind", "24", "--object-bits", "12"],
+     "dfcc": {"enforce": ["sodium_base642bin/sodium_base642bin_spec"], "replace": ["strchr"],
+              "loopspec": {"sodium_base642bin": [
+                  {"id": 0, "dec": "b64_len - b64_pos", "assigns": "b64_pos,bin_pos,ret,c,d,acc,acc_len,v_errno,__CPROVER_object_upto(bin,bin_maxlen)",
+                   "inv": "b64_pos <= b64_len && bin_pos <= bin_maxlen && acc_len <= 6 && (acc_len & 1) == 0 && (ret == 0 || ret == -1)"},
+                  {"id": 1, "dec": "b64_len - b64_pos", "assigns": "b64_pos", "inv": "b64_pos <= b64_len"}],
+                  "_sodium_base642bin_skip_padding": [
+                  {"id": 0, "dec": "b64_len - *b64_pos_p", "assigns": "padding_len,c,*b64_pos_p,v_errno", "inv": "*b64_pos_p <= b64_len"}]}},
+     "functions": ["sodium_base642bin", "_sodium_base642bin_skip_padding"], "assumes": ["strchr replaced by its libc contract", "errno modelled as a plain global"],
+     "what": "sodium_base642bin for EVERY input text, capacity, ignore set and the four variants: memory safety, frame, *bin_len <= capacity and 0 on failure, end pointer inside the input",
+     "bound": "values: text <= 8192 bytes, capacity <= 4096; every loop iteration covered by the invariants"},
+]
